@@ -7,4 +7,4 @@ Extraction "model.ml" base_anchor
   wire parse_stream decode reenc
   c11_ok proc_msgs_ok proc_eos_ok sink_msgs_ok sink_eos_ok sink_msg_count sink_flags_lens_ok
   decodable lens_ok es_only_last last_es is_partition calls_of datas_of
-  enabled get_enc bytes_eqb std_is_grpc std_enc_of_name announced untouched_ok.
+  enabled get_enc bytes_eqb std_is_grpc std_enc_of_name std_rejects announced untouched_ok.
